@@ -446,7 +446,11 @@ func openLocked(ctx context.Context, ref *SFid, mode Flag) error {
 
 	if IsDir(ref.Ent) {
 		dirs, err := ref.Ent.OpenDir(ctx)
-		err = EnsureNonNil(dirs, err)
+		// A func value boxed in an interface{} is never == nil,
+		// so EnsureNonNil(dirs, err) cannot see a nil ReadNext.
+		if err == nil && dirs == nil {
+			err = EnsureNonNil(nil, nil)
+		}
 		if err != nil {
 			return err
 		}
